@@ -181,6 +181,18 @@ def run(prog):
                 ms = model_site(m)
                 sites.append(ms)
                 if not (is_ucall(ub, uname) and len(ub[2]) >= 4):
+                    # a bound obtained by arithmetic instead of an evaluation: a quotient by a literal weight is not a number
+                    # when the weight is 0 (weights are probabilities: 0 and 1 are legal) — NaN compares false with everything,
+                    # so both branches are pruned and the incumbent is returned
+                    divs = [x for x in mir.subterms(ub) if x[0] == "bin" and x[1] == "Div" and
+                            any(mir.is_call(y) and y[1].name in ("var_weight", "get_var_weight", "weight", "index") and
+                                ("Wmc" in (y[1].key() or "") or "wmc" in show(y).lower() or y[1].name.endswith("weight"))
+                                for y in mir.subterms(x[3]))]
+                    if divs:
+                        errs.append("an order entry's bound is obtained by dividing by a literal weight (%s): a weight may be 0, the "
+                                    "quotient is then NaN or infinite and the comparisons that order and prune the branches are "
+                                    "meaningless (both branches pruned, the incumbent returned)" % show(divs[0])[:70])
+                        continue
                     errs.append("?order entry's first component %s is not a call of %s" % (show(ub)[:40], uname))
                     continue
                 if ms is None or model_site(ub[2][1]) is None:
